@@ -19,7 +19,7 @@ CLAIMED = {
  'C12': ('model_checking',
          'explicit-state breadth-first search over debugger command histories (step, next, stepi, nexti, continue, break L, delbr L) with state hashing, every transition a real Cmd.onecmd() on the real VM; oracle = the free run of the same module',
          'All command histories up to length 4 (quick) / 6 (thorough) over the full command alphabet on 19 debuggee programs at O0 and O2 are executed on the real debugger; every stop must be a state of the free run (transparency), and the per-command stop rules of the property are evaluated on every transition. States are deduplicated by a structural hash of VM state + breakpoints + finished flag.',
-         'Bounded by the debuggee set and history length; statement attribution is taken from the debug map (C11). Three genuine defects are carried in the findings ledger.',
+         'Bounded by the debuggee set and history length; statement attribution is taken from the debug map (C11). The three genuine defects it found were repaired in /repo (fix: commits c4dd8ee, fa9b4a0, e4d97da).',
          'DESIGN.md section 4, C12'),
  'C17': ('exploration',
          'exhaustive bounded enumeration of PRINT item/separator sequences (up to length 5 quick, 6-7 thorough, 11 item values x 2 separators; 4 ways of computing an item x 5 statement positions x 6 configurations on a sub-bound) compiled and run on the real VM against a layout reference model',
